@@ -95,6 +95,67 @@ def record_cases(c, mode, cases_path, every, procs=8):
     return lines
 
 
+def hints_phase(c, tier, cases_path=None, corrupt=0):
+    """MC_Hints (the transcribed hints satisfy the contract, bounded exhaustive) + the real next_change_hint (hook) recorded on
+    (expression, day) pairs and validated by Trace_Hints: contract on the library's own tilings (verdict), equality with the
+    transcription (diagnostic)."""
+    import time
+    for cfg, inv in (("MC_Hints", None), ("MC_Hints_expr", None)):
+        r = vlib.tlc_ok("MC_Hints", cfg=cfg, workers=vlib.NCPU if tier == "thorough" else 8, heap="6g", timeout=3600)
+        c.add_tlc(r)
+        vlib.log('[mc] MC_Hints/%s: %d distinct states, %.1fs' % (cfg, r.distinct, r.wall))
+    vlib.tlc_expect_violation("MC_Hints", cfg="MC_Hints_nv", workers=4)
+    vlib.tlc_expect_violation("MC_Hints", cfg="MC_Hints_expr_nv", workers=4)
+    t0 = time.time()
+    n, procs = (400, 8) if tier == "quick" else (12000, 16)
+    sample = None
+    if cases_path:
+        sample = os.path.join(vlib.WORK, "%s_hint_cases.ndjson" % c.pid.lower())
+        every = 12 if tier == "quick" else 2
+        with open(sample, "w") as f:
+            for i, l in enumerate(open(cases_path)):
+                if (i + c.seed) % every == 0:
+                    f.write(l)
+
+    def one(i):
+        path = os.path.join(vlib.WORK, "%s_hints_%02d.ndjson" % (c.pid.lower(), i))
+        args = ["record", "hints", "--seed", c.seed, "--n", n, "--part", i, "--parts", procs]
+        if sample:
+            args += ["--cases", sample]
+        if corrupt and i == 0:
+            args += ["--corrupt", corrupt]
+        vlib.ohv(args, stdout_path=path, timeout=7200)
+        return path
+
+    with cf.ThreadPoolExecutor(max_workers=procs) as ex:
+        paths = list(ex.map(one, range(procs)))
+    lines = renumber([l for p in paths for l in open(p).read().splitlines()])
+    vlib.log('[record] hints: %d events in %.1fs' % (len(lines), time.time() - t0))
+    t0 = time.time()
+    res, mism, acc = vlib.validate_traces("Trace_Hints", vlib.shard_lines(lines, 12 if tier == "quick" else 16, "%s_hn" % c.pid.lower()), heap="3g")
+    if acc != len(lines):
+        raise vlib.ToolError("Trace_Hints consumed %d of %d events" % (acc, len(lines)))
+    vlib.log('[validate] Trace_Hints: %d events in %.1fs' % (len(lines), time.time() - t0))
+    by_id = {json.loads(l)["id"]: json.loads(l) for l in lines}
+    verdicts, skipped = collections.Counter(), 0
+    differs = []
+    for r in res:
+        c.add_tlc(r)
+        for s in r.printed("STAT"):
+            verdicts[s["v"]] += 1
+            skipped += s["skipped"]
+        differs += r.printed("DIFFERS")
+    for m in mism:
+        e = by_id.get(m["id"], {})
+        c.mismatch("unsound day-jump hint: next_change_hint(%s) = %s for %r lets the iterator skip days that differ: %s" % (
+            m["n"], m["hint"], e.get("src"), json.dumps(m["bad"])[:200]),
+            {"src": e.get("src"), "ctx": e.get("ctx"), "n": m["n"], "hint": m["hint"], "bad": m["bad"], "verdict": "stream", "expr": e.get("expr")})
+    c.setv("hints", {"events": len(lines), "verdicts": dict(verdicts), "days_the_hints_skip": skipped,
+                     "transcription_differs_examples": [{"src": by_id.get(d["id"], {}).get("src"), **d} for d in differs[:5]]})
+    c.add("traces_validated_against_impl", len(lines))
+    return verdicts
+
+
 def renumber(lines):
     out = []
     for l in lines:
